@@ -4,6 +4,7 @@ import (
 	"fmt"
 	"go/ast"
 	"go/parser"
+	"go/printer"
 	"go/token"
 	"go/types"
 	"os"
@@ -258,6 +259,138 @@ func runSrcFacts(o *Options) *Result {
 		}
 	}
 	fmt.Fprintf(&sb, "Definition ctx_fields : list string := %s.\n", gList(cf))
+	// (d) fields of ctxVar (one variable slot of the context)
+	var vf []string
+	for _, af := range files {
+		for _, d := range af.Decls {
+			gd, ok := d.(*ast.GenDecl)
+			if !ok {
+				continue
+			}
+			for _, sp := range gd.Specs {
+				ts, ok := sp.(*ast.TypeSpec)
+				if !ok || ts.Name.Name != "ctxVar" {
+					continue
+				}
+				if st, ok := ts.Type.(*ast.StructType); ok {
+					for _, f := range st.Fields.List {
+						for _, n := range f.Names {
+							vf = append(vf, fmt.Sprintf("%q", n.Name))
+						}
+					}
+				}
+			}
+		}
+	}
+	fmt.Fprintf(&sb, "Definition ctxvar_fields : list string := %s.\n", gList(vf))
+
+	// (e) what Ctx.Reset touches, and which slot fields every block of a setter assigns.
+	// ctxPath renders ctx.F, ctx.F[i], ctx.F[i].G as "F", "F[]", "F[].G" (any receiver name).
+	var ctxPath func(e ast.Expr, recv string) (string, string, bool)
+	ctxPath = func(e ast.Expr, recv string) (path string, idx string, ok bool) {
+		switch x := e.(type) {
+		case *ast.SelectorExpr:
+			if id, isID := x.X.(*ast.Ident); isID && id.Name == recv {
+				return x.Sel.Name, "", true
+			}
+			if p, i, ok := ctxPath(x.X, recv); ok {
+				return p + "." + x.Sel.Name, i, true
+			}
+		case *ast.IndexExpr:
+			if p, _, ok := ctxPath(x.X, recv); ok {
+				var ib strings.Builder
+				_ = printer.Fprint(&ib, fset, x.Index)
+				return p + "[]", ib.String(), true
+			}
+		case *ast.SliceExpr:
+			return ctxPath(x.X, recv)
+		}
+		return "", "", false
+	}
+	var resetTouched []string
+	type slotBlock struct {
+		fn, idx string
+		fields  map[string]bool
+	}
+	var blocks []*slotBlock
+	setters := map[string]bool{"Set": true, "SetBytes": true, "SetCounter": true}
+	for _, af := range files {
+		for _, d := range af.Decls {
+			fd, ok := d.(*ast.FuncDecl)
+			if !ok || fd.Recv == nil || len(fd.Recv.List) == 0 || fd.Body == nil || len(fd.Recv.List[0].Names) == 0 {
+				continue
+			}
+			if namedOf(info.TypeOf(fd.Recv.List[0].Type)) != "Ctx" {
+				continue
+			}
+			recv := fd.Recv.List[0].Names[0].Name
+			if fd.Name.Name == "Reset" {
+				seen := map[string]bool{}
+				add := func(p string) {
+					if !seen[p] {
+						seen[p] = true
+						resetTouched = append(resetTouched, fmt.Sprintf("%q", p))
+					}
+				}
+				ast.Inspect(fd.Body, func(n ast.Node) bool {
+					switch x := n.(type) {
+					case *ast.AssignStmt:
+						for _, l := range x.Lhs {
+							if p, _, ok := ctxPath(l, recv); ok {
+								add(p)
+							}
+						}
+					case *ast.CallExpr:
+						if se, ok := x.Fun.(*ast.SelectorExpr); ok && se.Sel.Name == "Reset" {
+							if p, _, ok := ctxPath(se.X, recv); ok {
+								add(p + ".Reset()")
+							}
+						}
+					}
+					return true
+				})
+			}
+			if setters[fd.Name.Name] {
+				// every statement list that assigns slot fields directly is one block
+				ast.Inspect(fd.Body, func(n ast.Node) bool {
+					bs, ok := n.(*ast.BlockStmt)
+					if !ok {
+						return true
+					}
+					byIdx := map[string]*slotBlock{}
+					for _, st := range bs.List {
+						as, ok := st.(*ast.AssignStmt)
+						if !ok {
+							continue
+						}
+						for _, l := range as.Lhs {
+							if p, idx, ok := ctxPath(l, recv); ok && strings.HasPrefix(p, "vars[].") {
+								b := byIdx[idx]
+								if b == nil {
+									b = &slotBlock{fn: fd.Name.Name, idx: idx, fields: map[string]bool{}}
+									byIdx[idx] = b
+									blocks = append(blocks, b)
+								}
+								b.fields[strings.TrimPrefix(p, "vars[].")] = true
+							}
+						}
+					}
+					return true
+				})
+			}
+		}
+	}
+	fmt.Fprintf(&sb, "Definition reset_touched : list string := %s.\n", gList(resetTouched))
+	var bl []string
+	for _, b := range blocks {
+		var fs []string
+		for f := range b.fields {
+			fs = append(fs, fmt.Sprintf("%q", f))
+		}
+		sort.Strings(fs)
+		bl = append(bl, fmt.Sprintf("(%q, %q, %s)", b.fn, b.idx, gList(fs)))
+	}
+	fmt.Fprintf(&sb, "Definition slot_blocks : list (string * string * list string) := %s.\n", gList(bl))
 	if err := os.WriteFile(o.WorkDir+"/SrcFacts.v", []byte(sb.String()), 0o644); err != nil {
 		res.InfraError = err.Error()
 	}
